@@ -1,17 +1,19 @@
 import Log4rsModel.Roller.Model
 /-
-Lookup lemmas for the shared association-list `Disk` (own copies; the roller area proves its own).
+Lookup lemmas for the shared association-list `Disk` (own copies in an own namespace; the roller
+area proves its own under `Log4rs.Roller.Disk`).
 -/
-namespace Log4rs.Roller.Disk
+namespace Log4rs.Rolling.DiskL
+open Log4rs.Roller
 
 theorem get?_erase_self (d : Disk) (p : Path) : (d.erase p).get? p = none := by
-  simp only [get?, erase, Option.map_eq_none_iff, List.find?_eq_none]
+  simp only [Disk.get?, Disk.erase, Option.map_eq_none_iff, List.find?_eq_none]
   intro e he
   simp only [List.mem_filter] at he
   simpa using he.2
 
 theorem get?_erase_ne (d : Disk) (p q : Path) (h : q ≠ p) : (d.erase p).get? q = d.get? q := by
-  simp only [get?, erase]
+  simp only [Disk.get?, Disk.erase]
   congr 1
   rw [List.find?_filter]
   congr 1
@@ -24,17 +26,17 @@ theorem get?_erase_ne (d : Disk) (p q : Path) (h : q ≠ p) : (d.erase p).get? q
 
 theorem get?_set_self (d : Disk) (p : Path) (c : Bytes) : (d.set p c).get? p = some c := by
   have h := get?_erase_self d p
-  simp only [get?, Option.map_eq_none_iff] at h
-  simp [get?, set, List.find?_append, h]
+  simp only [Disk.get?, Option.map_eq_none_iff] at h
+  simp [Disk.get?, Disk.set, List.find?_append, h]
 
 theorem get?_set_ne (d : Disk) (p q : Path) (c : Bytes) (h : q ≠ p) : (d.set p c).get? q = d.get? q := by
   have h1 := get?_erase_ne d p q h
-  simp only [get?] at h1 ⊢
-  simp only [set, List.find?_append]
+  simp only [Disk.get?] at h1 ⊢
+  simp only [Disk.set, List.find?_append]
   have hpq : ¬ (p = q) := fun h' => h h'.symm
   have : ([(p, c)] : List (Path × Bytes)).find? (fun e => decide (e.1 = q)) = none := by
     simp [List.find?_cons, hpq]
   rw [this, Option.or_none]
   exact h1
 
-end Log4rs.Roller.Disk
+end Log4rs.Rolling.DiskL
